@@ -1,8 +1,58 @@
-import DarkluaModel.Util.Sexp
-/-! Line-protocol handlers for property C08 (stub: nothing modelled yet). -/
-namespace DarkluaModel.C08
+import DarkluaModel.Shared.AstSexp
+import DarkluaModel.Rules.EvaluatorFloat
+import DarkluaModel.C08.Model
+/-!
+Line-protocol handlers for property C08 (the evaluator model over IEEE doubles):
 
-def handle (op : String) (_args : List String) : String :=
-  "unknown-op " ++ op
+* `c08.eval <expr>`   → `(<value> <sideEffects> <sideEffects with pure metamethods> <multi>)`
+                        value ::= nil | true | false | (num f<bits>) | (str x<hex>) | table | function | unknown
+* `c08.h <expr>`      → `(<h8> <singleOK>)` — is the expression inside the proved region
+* `c08.coerce x<hex>` → `(num f<bits>)` | `none` — `LuaValue::String(bytes).number_coercion()`
+* `c08.fmt f<bits>`   → `x<hex>` — `f64::to_string`
+* `c08.semnum f<bits>`→ `x<hex>` — the reference semantics' `tostring` of a number (diagnostics)
+-/
+namespace DarkluaModel.C08
+open DarkluaModel.Evaluator
+
+def valueToSexp : LuaValue floatOps → Sexp
+  | .nil => .atom "nil"
+  | .true_ => .atom "true"
+  | .false_ => .atom "false"
+  | .number x => .list [.atom "num", .atom (floatToWire x)]
+  | .string s => .list [.atom "str", .atom (bytesToHex s)]
+  | .table => .atom "table"
+  | .function => .atom "function"
+  | .unknown => .atom "unknown"
+
+def handle (op : String) (args : List String) : String :=
+  match op, Sexp.parseArgs args with
+  | "eval", some [e] =>
+    match Expr.ofSexp? e with
+    | some e =>
+      (Sexp.list [valueToSexp (evaluate floatEvalOps e),
+        Sexp.ofBool (hasSideEffects floatEvalOps false e),
+        Sexp.ofBool (hasSideEffects floatEvalOps true e),
+        Sexp.ofBool (canReturnMultiple e)]).toString
+    | none => "bad-request"
+  | "h", some [e] =>
+    match Expr.ofSexp? e with
+    | some e => (Sexp.list [Sexp.ofBool (h8 floatEvalOps e), Sexp.ofBool (singleOK e)]).toString
+    | none => "bad-request"
+  | "coerce", some [.atom s] =>
+    match hexToBytes? s with
+    | some bs =>
+      match coerceString floatEvalOps bs with
+      | some x => (Sexp.list [.atom "num", .atom (floatToWire x)]).toString
+      | none => "none"
+    | none => "bad-request"
+  | "fmt", some [.atom s] =>
+    match wireToFloat? s with
+    | some x => bytesToHex (fmtRustFloat x)
+    | none => "bad-request"
+  | "semnum", some [.atom s] =>
+    match wireToFloat? s with
+    | some x => bytesToHex (floatToStr x)
+    | none => "bad-request"
+  | _, _ => "unknown-op " ++ op
 
 end DarkluaModel.C08
